@@ -475,6 +475,20 @@ def run(chk):
     from . import rules_C12, report
 
     report.include_rules(chk, r6, rules_C12, ("C12.R1", "C12.R2"), "while a server is out its keys go to the remaining servers and return to it after revival only if placement is recomputed from the servers currently in rotation on every call")
+    # the failover logic only works on failures it gets to see: the per-server clients must not swallow them
+    from . import pooled as pooled_an
+
+    for cname in ("HashClient", "AWSElastiCacheHashClient"):
+        cls_ = prog.cls(cname)
+        init_ = prog.method(cls_, "__init__")
+        if init_.cls is not cls_:
+            continue
+        hinit, hadd, hcreated = pooled_an.created_client_options(prog, cname, "add_server")
+        if not hcreated:
+            raise AnalysisError("C13.R5: no construction of a per-server client is reached through %s.__init__ + add_server" % cname)
+        for pos, kw in hcreated:
+            v = kw.get("ignore_exc", None)
+            r5.expect(v is None or v == Const(False), "%s: per-server clients are created with ignore_exc off" % cname, "%s:ignore_exc-forwarded" % cname, "%s constructs its per-server clients with ignore_exc=%s: their reads then swallow connection errors themselves, the failover logic never sees a failure, and a dead server is contacted by every call (no marking, no back-off, no eviction, no rerouting)" % (cname, "its own `ignore_exc` option" if isinstance(v, pooled_an.P) else v), fn=hinit, node=hinit.node)
     chk.assume("retry_timeout < dead_timeout, as in the property")
     chk.assume("time.time() is monotone between the calls of one operation")
 
